@@ -236,6 +236,7 @@ type simClock struct {
 }
 
 func (c *simClock) Now() time.Time {
+	simYield("clock.now") // the injected clock is a seam the code already has: a task may be preempted at every reading
 	c.reads.Add(1)
 	off := c.offset.Add(1)
 	t := time.Now().Add(time.Duration(off))
@@ -259,6 +260,7 @@ type simRNG struct {
 }
 
 func (r *simRNG) Read(p []byte) (int, error) {
+	simYield("rng.read")
 	r.reads++
 	if len(r.queue) > 0 {
 		q := r.queue[0]
@@ -378,6 +380,7 @@ func (o wop) writeOpts(res *wres) []resource.WriteOption {
 	if o.HasCheck {
 		want := o.CheckV
 		opts = append(opts, resource.WithExpectedCheck(func(old proto.Message) error {
+			simYield("cb.check")
 			var v int32
 			if old != nil {
 				if t, ok := old.(*testproto.TestAllTypes); ok && t != nil {
@@ -393,6 +396,7 @@ func (o wop) writeOpts(res *wres) []resource.WriteOption {
 	if o.HasDelta {
 		d := o.Delta
 		opts = append(opts, resource.InterceptBefore(func(old, change proto.Message) {
+			simYield("cb.before")
 			var n int64
 			if t, ok := old.(*testproto.TestAllTypes); ok && t != nil {
 				n = t.DefaultInt64
@@ -402,6 +406,7 @@ func (o wop) writeOpts(res *wres) []resource.WriteOption {
 	}
 	if o.After {
 		opts = append(opts, resource.InterceptAfter(func(old, new proto.Message) {
+			simYield("cb.after")
 			var v int32
 			if t, ok := old.(*testproto.TestAllTypes); ok && t != nil {
 				v = t.DefaultInt32
@@ -420,12 +425,13 @@ func (o wop) writeOpts(res *wres) []resource.WriteOption {
 	}
 	if o.GenID {
 		opts = append(opts, resource.WithGenIDIfAbsent(), resource.WithIDCallback(func(id string) {
+			simYield("cb.id")
 			res.ID = id
 			res.IDCalls++
 		}))
 	}
 	if o.CreatedCB {
-		opts = append(opts, resource.WithCreatedCallback(func() { res.Created++ }))
+		opts = append(opts, resource.WithCreatedCallback(func() { simYield("cb.created"); res.Created++ }))
 	}
 	if o.HasWT {
 		opts = append(opts, resource.WithWriteTime(o.WT))
